@@ -132,8 +132,15 @@ Proof.
   destruct p as [s0 r]. cbn [fst] in *.
   set (s1 := match pq_remove HQ (lpq (getl s0 l)) (Z.of_nat f) with Some (_, q') => _ | None => s0 end).
   assert (E1 : kproj s1 = kproj s0) by (unfold s1; destruct (pq_remove _ _ _) as [[? ?]|]; reflexivity).
-  set (s2 := if llocked (getl s1 l) then s1 else wake_up_first_p s1 l).
-  assert (E2 : kproj s2 = kproj s1) by (unfold s2; destruct (llocked _); [reflexivity|apply kproj_wake_p]).
+  set (s2 := if llocked (getl s1 l)
+             then match lowner (getl s1 l) with
+                  | Some o => if Nat.eqb o t then s1 else propagate_priority s1 o
+                  | None => s1 end
+             else wake_up_first_p s1 l).
+  assert (E2 : kproj s2 = kproj s1).
+  { unfold s2. destruct (llocked _); [|apply kproj_wake_p].
+    destruct (lowner (getl s1 l)) as [o|]; [|reflexivity].
+    destruct (Nat.eqb o t); [reflexivity|]. unfold propagate_priority. now rewrite kproj_propagate_task. }
   destruct had; cbn [fst]; [rewrite kproj_sett by reflexivity|]; congruence.
 Qed.
 
